@@ -41,6 +41,20 @@ def r_selectors(ctx, rid):
                 src.add(m.group(1))
         got[bits] = S(r)
     exp = {(): 'iden(inference_context)', ('0',): 'take(iden(inference_context))', ('!0',): 'drop_(iden(inference_context))'}
+    raw = [strip(r) for k, p, r in explore(ctx, h, max_visits=2) if k == 'RET']
+    if len(raw) == 1 and is_call(raw[0]) and raw[0][1].split('::')[-1] == 'fold' and len(raw[0][2]) == 3 and raw[0][2][2][0] == 'agg' and raw[0][2][2][1].startswith('closure:'):
+        # the same loop written as Iterator::fold(iden, |expr, bit| if bit { expr.drop_() } else { expr.take() })
+        it, init, clo = raw[0][2]
+        cf = fx.F.get(clo[1][8:])
+        steps = {}
+        if cf is not None:
+            acc = cf.names.get(2, 'expr')
+            for k2, p2, r2 in explore(ctx, cf):
+                if k2 == 'RET' and len(p2.conds) == 1 and p2.conds[0][0] == ('param', 2, cf.names.get(3, 'bit')):
+                    steps[p2.conds[0][1]] = S(r2).replace('(%s)' % acc, '(ACC)')
+        if S(init) == 'iden(inference_context)' and steps == {'0': 'take(ACC)', '!0': 'drop_(ACC)'}:
+            got = dict(exp)
+        src = {'into_iter(%s)' % S(it)} if S(it) == 'rev(into_iter(self.selection))' else {S(it)}
     ctx.ob(rid, 'selector:h', got == exp, 'h(): false ↦ take, true ↦ drop_, wrapped around the accumulated expression', h.where(), str(got))
     ctx.ob(rid, 'selector:h-order', src == {'into_iter(rev(into_iter(self.selection)))'}, 'h() consumes the bits in reverse push order (first pushed bit outermost)', h.where(), str(src))
 
